@@ -38,7 +38,7 @@ func c18Workload(rt *rapid.T, ev *evid.Rec) {
 	}
 	// the background head poller is part of the pipeline: 1 ms
 	for _, s := range w.Sources {
-		s.client = jrpc2.New(s.URL).WithPollDuration(time.Millisecond).WithMaxReads(len(m.decls))
+		s.client = jrpc2.New(s.urls()...).WithPollDuration(time.Millisecond).WithMaxReads(len(m.decls))
 	}
 	if err := w.rebuildTasksWithClients(); err != nil {
 		rt.Fatalf("VERIF-INCONCLUSIVE rebuild: %v", err)
